@@ -546,13 +546,15 @@ def main():
     for (P, taps, Wb, nsb) in var_base:
         for npol, nant, bits in itertools.product((1, 2), (1, 2), (8, 4)):
             for (sc, nc) in ((0, 2), (1, 1), (0, 1)):
-                if (npol, nant, bits, sc, nc) == (2, 1, 8, 0, 2):
+                if (npol, nant, bits, sc, nc) == (2, 1, 8, 0, 2) or sc + nc > P // 2:
                     continue
                 jobs.append(('job_record', (P, taps, Wb, nsb, npol, nant, bits, sc, nc, 2, 2, True)))
+        ncd = min(2, P // 2)
         for nblocks, bpf in ((1, 1), (3, 1), (3, 2), (3, 3), (2, 3)):
-            jobs.append(('job_record', (P, taps, Wb, nsb, 2, 1, 8, 0, 2, nblocks, bpf, True)))
-        jobs.append(('job_record', (P, taps, Wb, nsb, 2, 1, 8, 0, 2, 2, 2, False)))
-        jobs.append(('job_record', (P, taps, Wb, nsb, 1, 1, 4, 1, 1, 2, 1, False)))
+            jobs.append(('job_record', (P, taps, Wb, nsb, 2, 1, 8, 0, ncd, nblocks, bpf, True)))
+        jobs.append(('job_record', (P, taps, Wb, nsb, 2, 1, 8, 0, ncd, 2, 2, False)))
+        if P >= 4:
+            jobs.append(('job_record', (P, taps, Wb, nsb, 1, 1, 4, 1, 1, 2, 1, False)))
     for (P, taps, Wb, npol, bits) in [(4, 2, 3, 2, 8), (4, 2, 4, 1, 4)] + ([(4, 3, 5, 2, 8), (8, 2, 3, 2, 4)] if ck.thorough else []):
         jobs.append(('job_partition', (P, taps, Wb, npol, bits)))
     global TILING_BOUND
